@@ -26,7 +26,7 @@ CASES = [
     dict(name='m-confirm-load-acquire', kind='mutant', props=['C07', 'C01', 'C03'], expect=['C07', 'C01'],
          edits=[(H, 'let confirm = storage.load(SeqCst);', 'let confirm = storage.load(Acquire);')]),
     dict(name='m-pay-relaxed', kind='mutant', props=['C07'], expect=['C07'],
-         edits=[(M, '.compare_exchange(ptr as usize, Self::NONE, Release, Relaxed)', '.compare_exchange(ptr as usize, Self::NONE, Relaxed, Relaxed)')]),
+         edits=[(M, '.compare_exchange(ptr as usize, Self::NONE, SeqCst, SeqCst)', '.compare_exchange(ptr as usize, Self::NONE, Relaxed, Relaxed)')]),
     dict(name='m-swap-acqrel', kind='mutant', props=['C07', 'C01'], expect=['C07', 'C01'],
          edits=[(LB, 'let old = self.ptr.swap(new, Ordering::SeqCst);', 'let old = self.ptr.swap(new, Ordering::AcqRel);')]),
     dict(name='m-handover-cas-relaxed-fail', kind='mutant', props=['C07'], expect=['C07'],
@@ -75,11 +75,11 @@ CASES = [
                 Some(())
             });''')]),
     dict(name='m-fallback-read-before-intent', kind='mutant', props=['C01', 'C03'], expect=['C01', 'C03'],
-         edits=[(H, '''        let gen = node.new_helping(storage as *const _ as usize);''', '''        let candidate = storage.load(Acquire);
+         edits=[(H, '''        let gen = node.new_helping(storage as *const _ as usize);''', '''        let candidate = storage.load(SeqCst);
         let gen = node.new_helping(storage as *const _ as usize);'''),
-                (H, '''        // what we got in the Debt)
-        let candidate = storage.load(Acquire);
-''', '''        // what we got in the Debt)
+                (H, '''        // Debt).
+        let candidate = storage.load(SeqCst);
+''', '''        // Debt).
 ''')]),
     dict(name='m-claim-without-empty-test', kind='mutant', props=['C01', 'C10'], expect=['C01'],
          edits=[(FA, 'if slot.0.load(Relaxed) == Debt::NONE {', 'if slot.0.load(Relaxed) != usize::MAX {')]),
@@ -99,7 +99,7 @@ CASES = [
                 return old;''', '''                return old;''')]),
     dict(name='m-rwlock-cas-fail-no-inc', kind='mutant', props=['C14', 'C02', 'C05'], expect=['C14', 'C02'],
          edits=[(RW, '''            T::inc(&old);
-            drop(T::from_ptr(new));''', '''            drop(T::from_ptr(new));''')]),
+        }''', '''        }''')]),
     dict(name='m-into_inner-no-forget', kind='mutant', props=['C04', 'C02'], expect=['C04', 'C02'],
          edits=[(LB, '''        unsafe { self.strategy.wait_for_readers(ptr, &self.ptr) };
         mem::forget(self);
@@ -126,9 +126,9 @@ CASES = [
          edits=[(H, '''        let gen = node.new_helping(storage as *const _ as usize);''', '''        let gen = node.new_helping(storage as *const _ as usize);
         assert!(gen != 0, "generation is never zero");''')]),
     dict(name='m-call-inside-transaction', kind='mutant', props=['C13', 'C18'], expect=['C13'],
-         edits=[(H, '''        let candidate = storage.load(Acquire);
+         edits=[(H, '''        let candidate = storage.load(SeqCst);
 
-        // Try to replace''', '''        let candidate = storage.load(Acquire);
+        // Try to replace''', '''        let candidate = storage.load(SeqCst);
         let _dbg = alloc::format!("{:p}", candidate);
 
         // Try to replace''')]),
@@ -244,8 +244,6 @@ impl<T: RefCnt, S: Strategy<T>> Deref for Guard<T, S> {''')]),
     # ------------------------------------------------------------------ benign edits (must stay silent everywhere)
     dict(name='b-all-seqcst', kind='benign', props=ALL, expect=[],
          edits=[(H, 'let ptr = storage.load(Relaxed);', 'let ptr = storage.load(SeqCst);'),
-                (H, 'let candidate = storage.load(Acquire);', 'let candidate = storage.load(SeqCst);'),
-                (M, 'Release, Relaxed)', 'SeqCst, SeqCst)'),
                 (LI, 'self.0.active_writers.fetch_sub(1, Release);', 'self.0.active_writers.fetch_sub(1, SeqCst);'),
                 (LI, 'self.active_writers.fetch_add(1, Acquire);', 'self.active_writers.fetch_add(1, SeqCst);'),
                 (LI, 'if self.in_use.load(Relaxed) == NODE_COOLDOWN', 'if self.in_use.load(SeqCst) == NODE_COOLDOWN'),
@@ -269,7 +267,7 @@ impl<T: RefCnt, S: Strategy<T>> Deref for Guard<T, S> {''')]),
 
     #[inline]
     fn pay_raw(&self, ptr: usize) -> bool {
-        self.0'''), (M, '.compare_exchange(ptr as usize, Self::NONE, Release, Relaxed)', '.compare_exchange(ptr, Self::NONE, Release, Relaxed)')]),
+        self.0'''), (M, '.compare_exchange(ptr as usize, Self::NONE, SeqCst, SeqCst)', '.compare_exchange(ptr, Self::NONE, SeqCst, SeqCst)')]),
     dict(name='b-remove-debug-asserts', kind='benign', props=ALL, expect=[],
          edits=[(LI, '''        let node = &self.node.get().expect("LocalNode::with ensures it is set");
         debug_assert_eq!(node.in_use.load(Relaxed), NODE_USED);
@@ -337,7 +335,7 @@ impl<T: RefCnt, S: Strategy<T>> Deref for Guard<T, S> {''')]),
 
 CASES += [
     dict(name='m-pay-weak-cas', kind='mutant', props=['C02', 'C12'], expect=['C02'],
-         edits=[(M, '.compare_exchange(ptr as usize, Self::NONE, Release, Relaxed)', '.compare_exchange_weak(ptr as usize, Self::NONE, Release, Relaxed)')]),
+         edits=[(M, '.compare_exchange(ptr as usize, Self::NONE, SeqCst, SeqCst)', '.compare_exchange_weak(ptr as usize, Self::NONE, SeqCst, SeqCst)')]),
     dict(name='m-slot-after-idle', kind='mutant', props=['C01', 'C03'], expect=['C01'],
          edits=[(HP, '''        let prev = self.slot.0.swap(ptr, SeqCst);
         debug_assert_eq!(Debt::NONE, prev);
@@ -445,5 +443,35 @@ const NODE_CHECKING: usize = 3;''')]),
             && self
                 .in_use''', '''        if self
                 .in_use''')]),
+]
+
+CASES += [
+    # revert of fix: 17975ca (destructors run under the write lock of the RwLock<()> strategy)
+    dict(name='m-rwlock-drop-under-lock', kind='mutant', props=['C13', 'C18', 'C14'], expect=['C13', 'C18'],
+         edits=[(RW, '''        drop(lock);
+        if swapped.is_err() {
+            // ... and destroy the new one that didn't go in.
+            drop(T::from_ptr(new));
+        }
+        drop(current);
+        old''', '''        if swapped.is_err() {
+            // ... and destroy the new one that didn't go in.
+            drop(T::from_ptr(new));
+        }
+        drop(current);
+        drop(lock);
+        old''')]),
+]
+
+CASES += [
+    # revert of fix: 0213201 (the candidate load of the helping fallback is one half of a store-buffering pair)
+    dict(name='m-fallback-candidate-acquire', kind='mutant', props=['C07', 'C01', 'C03'], expect=['C07', 'C01', 'C03'],
+         edits=[(H, 'let candidate = storage.load(SeqCst);', 'let candidate = storage.load(Acquire);')]),
+]
+
+CASES += [
+    # revert of fix: e36648a (a failed pay-back must acquire the reader's Release)
+    dict(name='m-pay-relaxed-failure', kind='mutant', props=['C07', 'C04'], expect=['C07', 'C04'],
+         edits=[(M, '.compare_exchange(ptr as usize, Self::NONE, SeqCst, SeqCst)', '.compare_exchange(ptr as usize, Self::NONE, Release, Relaxed)')]),
 ]
 
